@@ -163,7 +163,7 @@ func TestVerifC06(t *testing.T) {
 	}
 	r.Bounds["type_term_depth"] = depth
 	r.Bounds["accessor_chain_length"] = chainLen
-	r.Extra["rule"] = "accessor chains of length <= 3 over {.y, .z, .*, [0], ['y']} on <root>.x in 34 contexts x roots {matrix, steps, needs, inputs, secrets, jobs} typed {x: T} for every type term T up to the depth bound x every single loosening (sub-term -> any, strict -> open object); oracle: an expression without diagnostics under the original environment has none under the loosened one; end-to-end: 4 literal-vs-dynamic definition pairs x consumer expressions, and every include list of 1-3 elements over 4 element forms with one known element made unknown x 8 consumers, every row list of 1-3 elements over 5 element forms likewise x 9 consumers (+ a typed position), through Linter.Lint. class = message skeleton that disappears or stays; non-trivial = original environment reports something"
+	r.Extra["rule"] = "accessor chains of length <= 3 over {.y, .z, .*, [0], ['y']} on <root>.x in 34 contexts x roots {matrix, steps, needs, inputs, secrets, jobs} typed {x: T} for every type term T up to the depth bound x every single loosening (sub-term -> any, strict -> open object); oracle: an expression without diagnostics under the original environment has none under the loosened one; end-to-end: 4 literal-vs-dynamic definition pairs x consumer expressions, and every include list of 1-3 elements over 4 element forms with one known element made unknown x 8 consumers, every row list of 1-3 elements over 5 element forms likewise x 9 consumers (+ a typed position), 12 typed positions (timeouts, booleans, call-input defaults) x value of known type made unknown, through Linter.Lint. class = message skeleton that disappears or stays; non-trivial = original environment reports something"
 	r.Extra["assumptions"] = []string{"environments type one property x of one context at a time", "message identity is compared modulo quoted names and type renderings"}
 
 	if raw := vReplayInput(); raw != nil {
@@ -415,6 +415,39 @@ func TestVerifC06(t *testing.T) {
 						return b.String()
 					}
 					c06E2ECompare(r, mk(dispTy), mk(""), "dispatch-input-type-dropped")
+				}
+			}
+		}
+	}
+	// typed positions: a value of known type (right or wrong) replaced by one whose type is unknown
+	// (any) - the position must accept it
+	{
+		job := "jobs:\n  a:\n    runs-on: ubuntu-latest\n"
+		steps := "    steps:\n      - run: echo\n"
+		typed := map[string]string{
+			"job-timeout-minutes":            "on: push\n" + job + "    timeout-minutes: §\n" + steps,
+			"step-timeout-minutes":           "on: push\n" + job + steps + "        timeout-minutes: §\n",
+			"job-continue-on-error":          "on: push\n" + job + "    continue-on-error: §\n" + steps,
+			"step-continue-on-error":         "on: push\n" + job + steps + "        continue-on-error: §\n",
+			"strategy-fail-fast":             "on: push\n" + job + "    strategy:\n      fail-fast: §\n      matrix:\n        x: [1]\n" + steps,
+			"strategy-max-parallel":          "on: push\n" + job + "    strategy:\n      max-parallel: §\n      matrix:\n        x: [1]\n" + steps,
+			"concurrency-cancel-in-progress": "on: push\nconcurrency:\n  group: g\n  cancel-in-progress: §\n" + job + steps,
+			"call-input-default-number":      "on:\n  workflow_call:\n    inputs:\n      n:\n        type: number\n        default: §\n" + job + steps,
+			"call-input-default-boolean":     "on:\n  workflow_call:\n    inputs:\n      n:\n        type: boolean\n        default: §\n" + job + steps,
+			"call-input-default-string":      "on:\n  workflow_call:\n    inputs:\n      n:\n        type: string\n        default: §\n" + job + steps,
+			"call-input-default-second":      "on:\n  workflow_call:\n    inputs:\n      first:\n        type: string\n      n:\n        type: number\n        default: §\n      b:\n        type: boolean\n        default: §\n" + job + steps,
+			"call-output-value":              "on:\n  workflow_call:\n    outputs:\n      o:\n        value: §\n" + job + steps,
+		}
+		known := []string{"${{ 10 }}", "${{ true }}", "${{ 'x' }}", "${{ github.run_attempt }}", "${{ null }}"}
+		unknown := []string{"${{ fromJSON(vars.X) }}", "${{ github.event.inputs.debug }}", "${{ github.event.repository.private }}", "${{ vars.X && fromJSON(vars.X) || 10 }}", "${{ fromJSON(vars.X).a[0] }}"}
+		for _, name := range vSortedKeys(typed) {
+			for _, k := range known {
+				for _, u := range unknown {
+					idx++
+					if !r.Mine(idx) {
+						continue
+					}
+					c06E2ECompare(r, strings.ReplaceAll(typed[name], "§", k), strings.ReplaceAll(typed[name], "§", u), "typed-position-value-unknown:"+name)
 				}
 			}
 		}
